@@ -8,7 +8,10 @@ import numpy as np
 from .. import fileio as fio
 from . import c04, c06, c08
 
-THEOREMS = ["C19_torn_counter", "C19_truncated_counter", "splitRecs_prefix", "C19_records_prefix", "image_single"]
+THEOREMS = ["C19_torn_counter", "C19_truncated_counter", "splitRecs_prefix", "C19_records_prefix", "image_single",
+            "decInts_getD", "parseHdr_fields", "mix_slice", "encForm_slices", "C19_header_rewrite",
+            "C19_rewrite_session", "C19_short_file", "image_seq", "C19_writer_crash", "C19_intact_header",
+            "image_over", "C19_appender_crash", "C19_truncated"]
 hx = c08.hx
 
 
@@ -159,6 +162,25 @@ def run(ck):
                     ap.append_points(c06.rec_of(las, part))
             intended = intended + extra
         final = rec.getvalue()
+        # the write stream has the shape the crash theorems assume (Crash.writerLog / appenderLog): one sequential
+        # stream, then exactly one rewrite at position 0 of at most the header's length
+        merged = []
+        for pos, d in rec.log:
+            if not d:
+                continue
+            if merged and merged[-1][0] + len(merged[-1][1]) == pos:
+                merged[-1] = (merged[-1][0], merged[-1][1] + d)
+            else:
+                merged.append((pos, d))
+        off0 = int.from_bytes(final[96:100], "little")
+        start = 0 if kind != "append" else off0 + n * size
+        shape_ok = (len(merged) == 2 and merged[0][0] == start and merged[1][0] == 0 and len(merged[1][1]) <= off0) or \
+                   (len(merged) == 1 and merged[0][0] == 0 and kind != "append")
+        if kind == "append" and len(merged) == 1:
+            shape_ok = merged[0][0] == 0 and len(merged[0][1]) <= off0      # nothing appended: only the header rewrite
+        if not shape_ok:
+            ck.fail(f"{kind} session: the write stream is not 'sequential data from {start}, then one header rewrite at 0': "
+                    f"{[(p_, len(d_)) for p_, d_ in merged][:6]}", {"kind": kind, "minor": minor, "fmt": fmt, "n": n, "what": "log-shape"}, source="correspondence")
         hlen = las.header.offset_to_point_data if las.header.offset_to_point_data else 400
         inp0 = {"kind": kind, "minor": minor, "fmt": fmt, "n": n, "evlrs": None if evlrs is None else len(evlrs), "writes": len(rec.log)}
         cuts = cut_points(rec.log, ck.tier, ck.rng, max(hlen, 375))
